@@ -814,9 +814,8 @@ func (wl *wlPure) describe() string {
 
 func pureSched(r *rng, ntasks int) namedSched {
 	cfg := simrt.Config{Seed: r.next(), Generative: true, MaxSteps: 20_000_000}
-	if ntasks > 1 {
-		cfg.PreemptDen = []uint32{2, 3, 8, 32, 128, 1024}[r.intn(6)]
-	}
+	// (with a single task this only matters if the library starts goroutines)
+	cfg.PreemptDen = []uint32{2, 3, 8, 32, 128, 1024}[r.intn(6)]
 	if r.chance(50) {
 		cfg.MapDen = []uint32{5, 8, 16}[r.intn(3)]
 		cfg.MapKinds = 0b11110
